@@ -11,5 +11,5 @@ CONSTANTS
 INIT Init
 NEXT Next
 VIEW view
-INVARIANTS TypeOK InOrderPrefix NoForeignStrict EofCompleteStrict DoneComplete ReaderAllocBound
+INVARIANTS TypeOK WritesAccepted InOrderPrefix NoForeignStrict EofCompleteStrict DoneComplete ReaderAllocBound
 CHECK_DEADLOCK FALSE
